@@ -5,6 +5,7 @@ mod conflict;
 mod decode;
 mod encode;
 mod iface;
+mod lifecycle;
 mod respond;
 mod rng;
 mod sim;
@@ -97,6 +98,41 @@ fn main() {
                     "conflict" => lines.extend(conflict::scenario(id, seed, thorough)),
                     _ => lines.extend(browse::scenario_flood(id, seed, thorough)),
                 }
+            }
+            sim::write_trace(&out, &lines);
+            println!("{}", json!({"summary": {"scenarios": to + 1 - from, "lines": lines.len()}}));
+        }
+        "lifecases" => {
+            // --cases file (one JSON case per line), --from/--to 1-based line numbers, --stride k, --full n
+            let path = a.get("cases").cloned().unwrap_or_default();
+            let text = std::fs::read_to_string(&path).expect("cases file");
+            let all: Vec<&str> = text.lines().filter(|l| !l.trim().is_empty()).collect();
+            let from: usize = a.get("from").and_then(|s| s.parse().ok()).unwrap_or(1);
+            let to: usize = a.get("to").and_then(|s| s.parse().ok()).unwrap_or(all.len()).min(all.len());
+            let stride: usize = a.get("stride").and_then(|s| s.parse().ok()).unwrap_or(1).max(1);
+            let full: u64 = a.get("full").and_then(|s| s.parse().ok()).unwrap_or(0);
+            let mut lines = Vec::new();
+            let mut n = 0;
+            let mut id = from;
+            while id <= to {
+                let case: serde_json::Value = serde_json::from_str(all[id - 1]).expect("case json");
+                lines.extend(lifecycle::scenario_case(id as u64, seed, &case));
+                n += 1;
+                id += stride;
+            }
+            for j in 0..full {
+                lines.extend(lifecycle::scenario_full(1_000_000 + from as u64 * 100 + j, seed));
+                n += 1;
+            }
+            sim::write_trace(&out, &lines);
+            println!("{}", json!({"summary": {"scenarios": n, "lines": lines.len()}}));
+        }
+        "threads" => {
+            let from: u64 = a.get("from").and_then(|s| s.parse().ok()).unwrap_or(1);
+            let to: u64 = a.get("to").and_then(|s| s.parse().ok()).unwrap_or(10);
+            let mut lines = Vec::new();
+            for id in from..=to {
+                lines.extend(lifecycle::scenario_threads(id, seed));
             }
             sim::write_trace(&out, &lines);
             println!("{}", json!({"summary": {"scenarios": to + 1 - from, "lines": lines.len()}}));
